@@ -182,6 +182,7 @@
 //     may change them (errors.WithDeferred(err, e) is "err if non-nil, else e");
 //   - with "trace", a deferred call is appended to the trace at every exit
 //     reached after the defer statement (arguments as evaluated at the defer);
+//   - with "trace", `go f(args)` is the effect ("go f", [scalar arguments]);
 //   - calls listed under "ignore" (mutex operations, logging, metrics) are
 //     dropped, and so is `defer func() { err = errors.Annotate(err, …) }()`;
 //     "lit": n translates the n-th function literal inside the named function
@@ -2524,6 +2525,18 @@ func (c *fctx) stmts(list []ast.Stmt) string {
 			return c.nestedTrace(call, rest)
 		}
 		return "let tr := tr ++ [" + c.traceEntry(call) + "]\n" + c.stmts(rest)
+	case *ast.GoStmt:
+		// a goroutine is started: an effect ("go f", [scalar arguments]); what it
+		// does later is not part of this function's translated meaning
+		if c.matches(c.spec.Ignore, x.Call) {
+			return c.stmts(rest)
+		}
+		if !c.trace {
+			fail("go statement %s (needs trace)", c.show(x))
+		}
+		entry := c.traceEntry(x.Call)
+		entry = "(\"go \" ++ " + entry[1:strings.Index(entry, ",")] + entry[strings.Index(entry, ","):]
+		return "let tr := tr ++ [" + entry + "]\n" + c.stmts(rest)
 	case *ast.DeferStmt:
 		if c.matches(c.spec.Ignore, x.Call) {
 			return c.stmts(rest)
